@@ -28,6 +28,20 @@ type NodeModel struct {
 	// kinds producible by the parser, computed by a flow analysis over parser.go
 	Loc      map[string]map[string]bool // abstract location -> node kinds ("union:F", "field:T.f", "cat:Stmt", "root")
 	Literals map[string][]token.Pos     // node kind -> positions of &ast.T{} literals in package parser
+	// Ranks[kind][field] = the $n positions (right-hand-side index) that feed the field, one per producing literal
+	Ranks map[string]map[string][]int
+	// Producers lists every node literal in a grammar action with the rule it belongs to
+	Producers []Producer
+}
+
+// Producer is one &ast.T{...} literal inside the action of a grammar rule.
+type Producer struct {
+	Kind   string
+	Rule   int
+	Fields map[string]int // field -> $n feeding it (0 when not fed by a right-hand-side symbol)
+	Pos    token.Pos
+	Parent string // kind of the enclosing node literal, "" at top level
+	PField string // field of the enclosing literal that holds this one
 }
 
 func (m *NodeModel) catOf(t types.Type) (cat string, slice bool) {
@@ -136,6 +150,7 @@ func BuildNodeModel(p *Program, g *LALR) (*NodeModel, error) {
 		return nil, fmt.Errorf("only %d node types found in package ast", len(m.NodeNames))
 	}
 	m.flow(p, g)
+	m.computeRanks()
 	return m, nil
 }
 
@@ -314,6 +329,17 @@ func (m *NodeModel) flow(p *Program, g *LALR) {
 						if _, isNode := m.Nodes[nn.Obj().Name()]; isNode {
 							if iter == 0 {
 								m.Literals[nn.Obj().Name()] = append(m.Literals[nn.Obj().Name()], n.Pos())
+								if curRule > 0 {
+									pr := Producer{Kind: nn.Obj().Name(), Rule: curRule, Fields: map[string]int{}, Pos: n.Pos()}
+									for _, el := range n.Elts {
+										if kv, ok := el.(*ast.KeyValueExpr); ok {
+											if key, ok := kv.Key.(*ast.Ident); ok {
+												pr.Fields[key.Name] = firstDollar(info, kv.Value)
+											}
+										}
+									}
+									m.Producers = append(m.Producers, pr)
+								}
 							}
 							st := nn.Underlying().(*types.Struct)
 							for _, el := range n.Elts {
@@ -440,4 +466,72 @@ func (m *NodeModel) assignsField(g *LALR, r int, field string) bool {
 		}
 	}
 	return false
+}
+
+// firstDollar returns the smallest n such that yyDollar[n] occurs in e (0 if none).
+func firstDollar(info *types.Info, e ast.Expr) int {
+	best := 0
+	ast.Inspect(e, func(n ast.Node) bool {
+		if _, isLit := n.(*ast.CompositeLit); isLit {
+			if t := info.TypeOf(n.(ast.Expr)); t != nil {
+				if nn, ok := t.(*types.Named); ok && nn.Obj().Pkg() != nil && nn.Obj().Pkg().Name() == "ast" {
+					return false // nested node literal: its operands belong to the nested node
+				}
+			}
+		}
+		ix, ok := n.(*ast.IndexExpr)
+		if !ok {
+			return true
+		}
+		id, ok := ix.X.(*ast.Ident)
+		if !ok || id.Name != "yyDollar" {
+			return true
+		}
+		if tv := info.Types[ix.Index]; tv.Value != nil {
+			if k, ok := constant.Int64Val(tv.Value); ok && (best == 0 || int(k) < best) {
+				best = int(k)
+			}
+		}
+		return true
+	})
+	return best
+}
+
+// computeRanks fills Ranks from Producers and later field assignments (x.F = $n / append(x.F, $n)) in the actions.
+func (m *NodeModel) computeRanks() {
+	m.Ranks = map[string]map[string][]int{}
+	for _, pr := range m.Producers {
+		for f, n := range pr.Fields {
+			if n == 0 {
+				continue
+			}
+			if m.Ranks[pr.Kind] == nil {
+				m.Ranks[pr.Kind] = map[string][]int{}
+			}
+			m.Ranks[pr.Kind][f] = append(m.Ranks[pr.Kind][f], n)
+		}
+	}
+}
+
+// Before reports whether field f is fed by an earlier right-hand-side symbol than field g in every production building kind
+// where both are set (ok=false when they never occur together or the productions disagree).
+func (m *NodeModel) Before(kind, f, g string) (before bool, ok bool) {
+	seen := false
+	res := true
+	for _, pr := range m.Producers {
+		if pr.Kind != kind {
+			continue
+		}
+		nf, nf2 := pr.Fields[f], pr.Fields[g]
+		if nf == 0 || nf2 == 0 {
+			continue
+		}
+		b := nf < nf2
+		if !seen {
+			seen, res = true, b
+		} else if b != res {
+			return false, false
+		}
+	}
+	return res, seen
 }
